@@ -2,14 +2,6 @@
  * Real functions encoded: decode_unicode, decode_bom, decode_utf8, decode_utf16,
  * get_word, is_ascii, decode_bytes, encode_utf8, write_char, write_utf8,
  * write_utf16, write_byte, write_bom.  */
-#ifndef VP_CAP_U8
-#define VP_CAP_U8 16
-#endif
-#ifndef VP_CAP_INT
-#define VP_CAP_INT 8
-#endif
-template<> struct vp_cap<unsigned char> { enum { value = VP_CAP_U8 }; };
-template<> struct vp_cap<int> { enum { value = VP_CAP_INT }; };
 #include "/repo/src/unicode.cpp"
 VP_ZERO_GLOBAL(cp_data_t, cpd);   /* zero-initialised by the engine; the codec reads only enc/bom/fout/bout */
 extern "C" int fputc(int c, FILE *f) { (void)f; vp_unmodelled("fputc (cpd.fout is null in this harness)"); return c; }
